@@ -766,7 +766,7 @@ Definition sigel_ok (e : sigel) : Prop :=
   match e with
   | SigRes t => wf_mtype t /\ is_undef t = false
   | SigArg v => wf_mtype (v_type v) /\ is_undef (v_type v) = false
-                /\ (all_blk_type_p (v_type v) = true -> 0 <= v_size v < 2 ^ 32)
+                /\ (all_blk_type_p (v_type v) = true -> 0 <= v_size v < 2 ^ 63)
   end.
 
 Lemma type_str_not_dots t : bytes_eqb (type_str t) (str "...") = false.
@@ -792,7 +792,7 @@ Proof.
     + cbn [app]. unfold parse_op. rewrite Hk, Hv, type_str_not_dots. cbn [andb negb orb].
       rewrite str2type_type_str by assumption. rewrite Eb. cbn [negb orb].
       destruct (Hsz eq_refl) as [H0 H1].
-      destruct (Z.ltb_spec (v_size v) 0); [lia|]. destruct (Z.leb_spec (2 ^ 32) (v_size v)); [lia|]. reflexivity.
+      destruct (Z.ltb_spec (v_size v) 0); [lia|]. reflexivity.
     + cbn [app]. unfold parse_op. rewrite Hk, Hv, type_str_not_dots. cbn [andb negb orb].
       rewrite str2type_type_str by assumption.
       destruct k; try discriminate; reflexivity.
